@@ -81,6 +81,29 @@ def run(tier):
                                {"install": site, "exit": E.exit_description(f, esc), "path": wit})
 
     # R3: step() error arm
+    # R3b: whoever takes the saved environment out of its slot puts it back whenever there is one
+    ck.rule("R3b.slot-restore", "a function that takes Interpreter.active_saved_env restores Interpreter.env on every path on which the slot held a value", floor=1)
+    for f in fx.fns.values():
+        if f.derived:
+            continue
+        for bi, t in f.calls():
+            if not t[1].get("d", "").endswith("Option::<T>::take") or not t[2] or t[2][0][0] not in ("c", "m") or not t[3] or t[3][1]:
+                continue
+            fl = E.field_of_ref(f, t[2][0][1][0])
+            if not fl or fl[0] != INTERP or fl[2] != "active_saved_env":
+                continue
+            closers = set()
+            for b2, bl in enumerate(f.blocks):
+                for st_ in bl["s"]:
+                    if st_[0] == "a" and EV.is_env_place(st_[1], "env") and st_[2][0] != "ref":
+                        closers.add(b2)
+            esc = E.escapes_some_sensitive(fx, f, bi, closers, assume=(t[3][0],))
+            ck.instance("R3b.slot-restore", f.parent, F.short_span(t[6]), ok=esc is None)
+            if esc is not None:
+                ck.finding("R3b.slot-restore", "R3b.slot-restore/" + f.parent, F.short_span(t[6]),
+                           "`%s` takes the saved environment out of active_saved_env and can return without writing it back to Interpreter.env although the slot "
+                           "held a value: the next program starts inside the scope the failed or abandoned run left behind" % f.parent)
+
     ck.rule("R3.terminal-restore", "step(): the error outcome of a terminal VM result restores the run state (abort/finalize)", floor=1)
     st = fx.one("interpreter::Interpreter::step")
     pv = [(bi, t) for bi, t in st.calls() if t[1].get("d", "").endswith("Interpreter::process_vm_result")]
